@@ -261,26 +261,35 @@ def rewrite_map_or(code, stats):
         m = re.search(r"\.\s*map_or\s*\(", code)
         if not m:
             return code
-        # receiver: walk back over a postfix chain
+        # receiver: walk back over a postfix chain  a.b(..).c[..]  (may span lines)
         i = m.start()
         j = i
-        depth = 0
         while j > 0:
             c = code[j - 1]
             if c in ")]":
-                depth += 1
-            elif c in "([":
-                if depth == 0:
-                    break
-                depth -= 1
-            elif depth == 0 and not (c.isalnum() or c in "_.\n \t:*&"):
+                # jump to the matching opener
+                d = 0
+                k = j - 1
+                while k >= 0:
+                    if code[k] in ")]":
+                        d += 1
+                    elif code[k] in "([":
+                        d -= 1
+                        if d == 0:
+                            break
+                    k -= 1
+                j = k
+                continue
+            if c.isalnum() or c in "_.:":
+                j -= 1
+                continue
+            if c in " \t\n":
+                # whitespace is part of the chain only if what follows it starts with '.'
+                if code[j:i].lstrip().startswith(".") or code[j:i].strip() == "":
+                    j -= 1
+                    continue
                 break
-            elif depth == 0 and c in " \t\n":
-                # allow whitespace only if it is followed by '.' (method chain across lines)
-                rest = code[j:i].lstrip()
-                if not rest.startswith("."):
-                    break
-            j -= 1
+            break
         recv = code[j:i]
         lead = len(recv) - len(recv.lstrip())
         j += lead
@@ -503,6 +512,7 @@ class ImplSpec:
         self.canary_skip = set()
         self.ret = {}
         self.assumes = {}
+        self.only = None
 
 
 def apply_contract(sig, clauses, ret="r"):
@@ -703,7 +713,10 @@ def extract_impl(path, header_lit, macro, args, handle, spec, stats, canary):
     if handle:
         for a, b in HANDLE_TRAITS.items():
             header = re.sub(r"\b%s\b(?=\s*(<|for\b))" % a, b, header, count=1)
-    gen, trait, selfty, where = header_generics(header)
+    if re.match(r"\s*(pub\s+)?trait\b", header):
+        gen, trait, selfty, where = "", "", "Self", ""
+    else:
+        gen, trait, selfty, where = header_generics(header)
     out = [header.rstrip() + "\n{"]
     tm = re.match(r"Observer\s*<(.*)>\s*$", trait, re.S)
     if tm and not handle and not any("fn records" in x for x in spec.spec):
@@ -721,11 +734,11 @@ def extract_impl(path, header_lit, macro, args, handle, spec, stats, canary):
     for it in items:
         if it["kind"] == "other":
             t = drop_attrs_and_docs(it["text"]).strip()
-            if t:
+            if t and spec.only is None:
                 out.append(t)
             continue
         seen.add(it["name"])
-        if it["name"] in spec.skipfn:
+        if it["name"] in spec.skipfn or (spec.only is not None and it["name"] not in spec.only):
             continue
         out.append(process_fn(it, spec, handle, stats, canary))
         for (fname, muted) in spec.silent:
@@ -917,6 +930,9 @@ def generate(template_path, variant, canary=False):
                     parts = l.split(" :: ")
                     spec.assumes.setdefault(t[1], []).append((parts[1].strip(), parts[2].strip() if len(parts) > 2 else ""))
                     stats["assumes"] += 1
+                    i += 1
+                elif t[0] == "@@only":
+                    spec.only = (spec.only or set()) | set(t[1:])
                     i += 1
                 elif t[0] == "@@skipfn":
                     spec.skipfn.add(t[1])
